@@ -239,6 +239,26 @@ def rule_c(model, rep):
 # ----------------------------------------------------------------------------- C08.d
 def rule_d(model, rep):
     R = "C08.d-whole-digest"
+    # settings parsed from a *full* hash are validated strictly; only config strings (no digest) may be clipped / truncated
+    RS = "C08.d-strict-settings"
+    ns = 0
+    for un, unit in model.units.items():
+        if not un.startswith("passlib."):
+            continue
+        for q, f0 in unit.functions():
+            short = q.split(".")[-1]
+            if short not in ("_parse_salt", "_parse_rounds", "_parse_ident", "_parse_checksum"):
+                continue
+            for c in walk_no_nested(f0):
+                if isinstance(c, ast.Call) and isinstance(c.func, ast.Attribute) and c.func.attr.startswith("_norm_"):
+                    rel = next((k.value for k in c.keywords if k.arg == "relaxed"), None)
+                    ns += 1
+                    ok = rel is None or ast.unparse(rel) == "self.checksum is None"
+                    rep.check(ok, RS, site(un, q), ast.unparse(c), "a setting parsed from a hash string is normalised strictly unless the string carries no digest (config string)",
+                              witness="a full hash whose salt was lengthened (or whose rounds lie outside the limits) is silently repaired while parsing and still verifies: "
+                                      "an altered hash string is accepted instead of refused")
+    if ns < 4:
+        rep.undecided(RS, "<instance-count>", f"only {ns} parse-time normaliser calls found, expected at least 4")
     # _norm_checksum: size and charset enforced
     fn = model.func(UH, "GenericHandler._norm_checksum")
     txt = qtext(fn)
